@@ -96,7 +96,58 @@ partial def cexprOfJson (j : Json) : Option CExpr :=
     | _ => none)
   | _ => none
 
+def colsOfJson (cols : Array Json) : Option (List (String × List Cell)) :=
+  cols.toList.mapM (fun (c : Json) => match c with
+    | .arr p => (match p.toList with
+      | [.str n, vs] => (cellsOfJson vs).map (fun v => (n, v))
+      | _ => none)
+    | _ => none)
+
+/-- `{"op": "new", "via_derive": ["mul", k] | ["add_self"] | ["copy"], "cols": …}`: the implementation replaced the table in
+    use by a derivation of itself.  The model applies ITS OWN derivation (`mulT` / `addT t t` / `copyT`, the functions of
+    `XModel/TableDerivHist.lean`'s `applyDOp`) to ITS current table — so a cache built by earlier look-ups is in play
+    exactly as in the theorems — and checks the listed columns of the result (names and cells, not their order) against the
+    `cols` the harness computed from the implementation's source table.  A difference is reported as `derive_diverges` (and as a non-null `val`, which
+    the comparison sees: the implementation's `val` of a `new` line is null); the state compared afterwards is the
+    usual one.  Lines of histories the model does not follow (`oracle_only`) are left to the plain `new` branch. -/
+def viaDerive (t : Tbl) (j : Json) : Option (Tbl × Json) :=
+  match fieldStr j "op", field j "via_derive", field j "oracle_only" with
+  | some "new", some (.arr how), none =>
+    let derived : Except String (Except TErr Tbl) :=
+      match how.toList with
+      | [.str "mul", k] => (match k.getNat?.toOption with
+        | some k => .ok (mulT t k)
+        | none => .error "via_derive mul")
+      | [.str "add_self"] => .ok (addT t t)
+      | [.str "copy"] => .ok (.ok (copyT t))
+      | _ => .error "via_derive"
+    match derived with
+    | .error why => some (bad t why)
+    | .ok (.error e) => some (out t (.str e.name) .null)
+    | .ok (.ok r) =>
+      match field j "cols" with
+      | some (.arr cols) =>
+        (match colsOfJson cols with
+         | none => some (bad t "new cols")
+         | some cs =>
+           let mine := r.colNames.map (fun c => (c, (r.col c).getD []))
+           -- column by column, not in order: the harness presents `del t[c]; t[c] = …` to the model as ONE column
+           -- assignment, so the ORDER of the listed columns may differ (C07 does not observe `cols`)
+           let same := mine.length == cs.length && cs.all (fun p => r.colNames.contains p.1 && r.col p.1 == some p.2) &&
+             mine.all (fun p => lookupA cs p.1 == some p.2)
+           if same && fieldStr j "index" == some r.index then some (out r (.str "ok") .null)
+           else
+             let shown := Json.arr (mine.map (fun p => Json.arr #[.str p.1, .arr (p.2.map cellToJson).toArray])).toArray
+             let d := Json.mkObj [("derive_diverges", Json.mkObj [("index", .str r.index), ("model_cols", shown)])]
+             let (r', o) := out r (.str "ok") d
+             some (r', o.setObjVal! "derive_diverges" (.bool true)))
+      | _ => some (bad t "new")
+  | _, _, _ => none
+
 def step (t : Tbl) (j : Json) : Tbl × Json :=
+  match viaDerive t j with
+  | some res => res
+  | none =>
   match fieldStr j "op" with
   | some "new" =>
     match fieldStr j "index", field j "cols" with
